@@ -2,7 +2,7 @@
 #   h_fs_step : inductive form -- arbitrary directory within a menu, a new sink, VF_OPS writes (claimed checks)
 #   h_fs_hist : histories from the empty directory (experimental tier: no verdict within the budget, see DESIGN.md)
 D = {'QM_STR_CAP': 48, 'QM_LIST_CAP': 5, 'QM_HASH_CAP': 2, 'QM_FS_SLOTS': 5, 'QM_FS_FCAP': 12, 'QM_RX_MAXSEG': 16, 'VF_LMAX': 8, 'VF_SMAX': 2, 'VF_PRE': 3}
-UP = {'h_fs_hist': 8, 'h_fs_step': 8, 'check_directory': 8, 'decode': 10, 'findNextIndexForDate': 6, 'findRotatedFiles': 6, 'removeOldFiles': 5, 'calculateCRC32': 300, 'ref_crc32': 40,
+UP = {'h_fs_hist': 8, 'h_fs_step': 8, 'check_directory': 8, 'decode': 10, 'findNextIndexForDate': 6, 'findRotatedFilesEv\\.[0-9]+$': 7, 'removeOldFiles': 5, 'calculateCRC32': 300, 'ref_crc32': 40,
       '__insertion_sort': 4, '__unguarded': 4, 'env_gunzip': 40, 'ref_gzip': 12, 'parse_rotated_name': 50, 'rx_compile': 2600, 'entryList': 90, 'rx_exec_det': 60, 'rx_prog_is_det': 30}
 
 def step(prop, name, menu, aday, dday, startup, daily, compress, ops=1, tiers=('quick', 'thorough'), extra=None, timeout=1800, mem=24, replay=None):
